@@ -44,6 +44,13 @@ def _all_nots():
 
 @st.composite
 def cases(draw):
+    c = draw(_cases())
+    c['share'] = draw(st.booleans())
+    return c
+
+
+@st.composite
+def _cases(draw):
     pool, _, defs = _pool()
     part = draw(st.sampled_from(['sound', 'complete', 'complete', 'eqs', 'notation']))
     if part == 'sound':
@@ -157,6 +164,12 @@ def check_sound(c, p_t, inst_obj, inst_exp, seed, res, defs, what):
 
 
 def body(c, stats: Stats):
+    # identity: in a share of the cases the unconstrained phi0..phi2 of pattern, instance and seed are the library's own shared objects
+    with gens.shared_metavars(c.get('share')):
+        return _body(c, stats)
+
+
+def _body(c, stats: Stats):
     import proof_generation.pattern as P
 
     _, _, defs = _pool()
